@@ -4,20 +4,20 @@ import vlib
 from props.common import TRUSTED_BASE, ASSUMPTIONS
 
 ID = "C19"
-LEAN_MODULES = ["LexVerif.Props.C19", "LexVerif.Props.RoundNE", "LexVerif.Props.TablesParse", "LexVerif.Props.Literals.ParseFloatParse", "LexVerif.Props.Literals.ParseFloatNumber", "LexVerif.Props.Literals.ParseFloatLemire", "LexVerif.Props.Literals.ParseFloatBellerophon", "LexVerif.Props.Literals.ParseFloatSlow", "LexVerif.Props.Literals.ParseFloatBigint", "LexVerif.Props.Literals.ParseFloatShared", "LexVerif.Props.Literals.ParseFloatFloat", "LexVerif.Props.Literals.ParseFloatMask", "LexVerif.Props.Literals.ParseFloatLimits", "LexVerif.Props.Literals.ParseIntegerAlgorithm", "LexVerif.Props.Literals.UtilDigit", "LexVerif.Props.Literals.UtilStep", "LexVerif.Props.Literals.ParseFloatBinary", "LexVerif.Props.Literals.ParseFloatOptions", "LexVerif.Props.LiteralsModel"]
+LEAN_MODULES = ["LexVerif.Props.C19", "LexVerif.Props.RoundNE", "LexVerif.Props.TablesParse", "LexVerif.Props.Literals.ParseFloatParse", "LexVerif.Props.Literals.ParseFloatNumber", "LexVerif.Props.Literals.ParseFloatLemire", "LexVerif.Props.Literals.ParseFloatBellerophon", "LexVerif.Props.Literals.ParseFloatSlow", "LexVerif.Props.Literals.ParseFloatBigint", "LexVerif.Props.Literals.ParseFloatShared", "LexVerif.Props.Literals.ParseFloatFloat", "LexVerif.Props.Literals.ParseFloatMask", "LexVerif.Props.Literals.ParseFloatLimits", "LexVerif.Props.Literals.ParseIntegerAlgorithm", "LexVerif.Props.Literals.UtilDigit", "LexVerif.Props.Literals.UtilStep", "LexVerif.Props.Literals.ParseFloatBinary", "LexVerif.Props.Literals.ParseFloatOptions", "LexVerif.Props.LiteralsModel", "LexVerif.Props.C19Final"]
 GEN = ["parse_tables", "literals"]
 TRUSTED = TRUSTED_BASE + [
-    "the <=1 ulp bound of the lossy Eisel-Lemire estimate (decimal, non-compact builds) is NOT proved in Lean; it is measured against the oracle on the worst cases, which are exactly the inputs on which lossy and exact parsing differ. For Bellerophon and the power-of-two path the bound IS proved on the Lean models (Props/C19.lean), the models being tied to the code by component-level correspondence (ops bel/bin in props/C01.py streams)",
+    "decimal: PROVED on the pipeline model (Props/C19Final.lean C19_lossy_decimal_proved; model tied to the code by the pf/apf and cf/lm/bel component streams): same acceptance/count/errors/special values as the oracle, same sign, magnitude at most one pattern from the correctly rounded one (Eisel-Lemire builds: the correct one or the pattern just below, C19.lossy_lemire_neighbour_proved; compact builds: Bellerophon, either side), equal whenever Eisel-Lemire decides an untruncated input (C19_decimal_decided). Other radices: proved per Number (lossy_number_pow2_exact / lossy_number_pow2 / lossy_number_bellerophon); the API statement C19_lossy_full is kept as a Prop - open is the exactness of the syntax layer's mantissa/exponent words for non-decimal radices. NOT true and not claimed: preservation of a correct +inf (lossy_overflow_witness: 2^1024-2^970 written out parses to the largest finite double under lossy, in the model and in the implementation)",
 ]
 RULE = ("every op is run twice (lossy and not): acceptance, count and error must be identical; the lossy value must be the oracle's "
         "correctly rounded float or a neighbour (equal when the correct result is zero/infinite or the input is a fast-path case). "
         "Inputs: G-hard worst cases (near-halfway: exactly where lossy exposes itself), G-exp cut-offs, random literals, radices per feature set. "
         "non-trivial = accepted finite non-zero; distinct = distinct op lines")
 TECHNIQUE = "Lean 4 proof (syntax independence of lossy on the model level is structural; oracle theorems) + correspondence measuring ulp distance to the oracle on near-halfway worst cases"
-LEVEL_TEXT = ("Proved in Lean: the oracle and tables (as C01/C05), monotonicity of roundNE, and on the Lean models of the moderate paths: lossy binary() (power-of-two radices) and lossy bellerophon() (decimal under compact, every generic radix) answer with the correctly rounded float or an adjacent pattern (lossy_pow2_neighbour, lossy_bellerophon_neighbour). "
-              "The 1-ulp accuracy of the lossy Eisel-Lemire path (decimal, non-compact builds) is NOT proved; it is checked against the oracle on near-halfway worst cases for every radix, "
-              "together with identical acceptance/count/errors between lossy and exact parsing. Partial proof, stated as such.")
-LEVEL_NOTE = "Trusted: Lean kernel; rustc; differential harness; generators. Power-of-two radices: proved on the Lean model of binary() (Props/C19.lean lossy_pow2_exact / lossy_pow2_agrees / lossy_pow2_bracket_partial: the lossy answer is roundNE of the truncated mantissa, equals the exact answer whenever that decides) and lossy_pow2_neighbour (complete: for a truncated mantissa the lossy answer is the correctly rounded float or the pattern just below it). Bellerophon (decimal under compact, all 29 generic radices): lossy_bellerophon_neighbour, complete on the model (the lossy answer is the correctly rounded float of the true value or an adjacent pattern). Decimal in non-compact builds (Eisel-Lemire, lossy): measured only."
+LEVEL_TEXT = ("Proved in Lean: the oracle and tables (as C01/C05), monotonicity of roundNE, and on the Lean models of the moderate paths: lossy binary() (power-of-two radices), lossy bellerophon() (decimal under compact, every generic radix) and lossy compute_float() (Eisel-Lemire: lossy_lemire_neighbour_proved - on the fall-back inputs cfRound rounds the computed product, which is within 2^-61 of the exact one, roundNE_step) answer with the correctly rounded float or an adjacent pattern. "
+              "Pipeline level (Props/C19Final.lean, parseFloatAlgoModel with lossy on): for decimal, every build, every separator-free format class, every digit count, the lossy line is the oracle's line or ok with the same count, the same sign and a magnitude at most one pattern away (C19_lossy_decimal_proved), and it is the oracle's line whenever Eisel-Lemire decides (C19_decimal_decided); per Number for the other radices. "
+              "Kept as a Prop: C19_lossy_full (all radices at API level). Correspondence: lossy/exact streams against the oracle on near-halfway worst cases for every radix, identical acceptance/count/errors, and the pipe-lossy stream (pipeline model = implementation).")
+LEVEL_NOTE = "Trusted: Lean kernel; rustc; differential harness; generators. Power-of-two radices: proved on the Lean model of binary() (Props/C19.lean lossy_pow2_exact / lossy_pow2_agrees / lossy_pow2_bracket_partial: the lossy answer is roundNE of the truncated mantissa, equals the exact answer whenever that decides) and lossy_pow2_neighbour (complete: for a truncated mantissa the lossy answer is the correctly rounded float or the pattern just below it). Bellerophon (decimal under compact, all 29 generic radices): lossy_bellerophon_neighbour, complete on the model (the lossy answer is the correctly rounded float of the true value or an adjacent pattern). Decimal in non-compact builds (Eisel-Lemire, lossy): proved (lossy_lemire_neighbour_proved, C19_decimal_lossy_lemire)."
 
 
 def feature_sets(tier):
@@ -36,7 +36,33 @@ def streams(tier, rng, fs, profile):
            + gens.float_random_ops(rng, fs, rads, 100 if quick else 3000, lossy=True))
     # paired exact ops (same input, lossy = 0) for the syntax-independence relation
     exact = [unlossy(op) for op in ops]
-    return [("lossy", ops), ("exact", exact)]
+    # pipe-lossy: the lossy inputs against the algorithmic pipeline model with the lossy flag (Props/C19Final.lean is about it)
+    pipe = ["apf" + o[2:] for o in ops if o.startswith("pf ")]
+    return [("lossy", ops), ("exact", exact), ("pipe-lossy", pipe), ("lossy-overflow-tie", overflow_tie_ops(fs))]
+
+
+def overflow_tie_ops(fs):
+    """the exact tie between the largest finite float and 2^emax, written out in full: correctly rounded it is +inf (ties
+    to even), under `lossy` only the first 19 digits are rounded (recorded finding C19-lossy-overflow-tie)"""
+    ops = []
+    fmt = gens.fmt_hex(gens.pack(10))
+    for ty, tie in (("f64", 2 ** 1024 - 2 ** 970), ("f32", 2 ** 128 - 2 ** 103)):
+        for v in (tie, tie + 1, tie - 1):
+            for s in (str(v), str(v) + ".0", str(v) + "e0", "-" + str(v)):
+                for lossy in (True, False):
+                    ops.append(gens.pf_op(ty, fmt, s, 10, lossy=lossy))
+    return ops
+
+
+def classify(v):
+    """call-site class of the one recorded C19 finding: the correct result is infinite, the lossy one the largest finite float"""
+    it, st = v.get("implementation", "").split(" "), v.get("specification", "").split(" ")
+    if v.get("op", "").startswith("pf ") and len(it) > 1 and len(st) > 1 and it[0] == "ok" and st[0] == "ok":
+        pair = (it[1].lstrip("-"), st[1].lstrip("-"))
+        if pair in (("7fefffffffffffff", "7ff0000000000000"), ("ffefffffffffffff", "fff0000000000000"),
+                    ("7f7fffff", "7f800000"), ("ff7fffff", "ff800000")):
+            return "lossy-overflow-tie"
+    return None
 
 
 def unlossy(op):
